@@ -20,6 +20,10 @@ type fatScen struct {
 	Oracle    string // model | fatck | range
 	MaxStates int
 	CanonFree bool
+	// BadLow, when > 0, prepares a non-initial state after Create: clusters 3..BadLow are marked as bad clusters in
+	// both FAT copies and the volume is re-opened, so every allocation lands above BadLow (cluster numbers that
+	// need the high 16 bits of a FAT32 directory entry).
+	BadLow int
 }
 
 // acceptance memory for the differential oracle "the same logical state accepts the same operations"
@@ -67,6 +71,13 @@ func (sc *fatScen) scenario(memo *acceptMemo) explore.Scenario {
 			return out
 		}
 		s.canonFree = sc.CanonFree
+		if sc.BadLow > 0 {
+			if err := s.markBadLow(sc.BadLow); err != nil {
+				out.Prune = true
+				out.Viols = append(out.Viols, explore.Viol{Sig: "infra|prepare", Msg: err.Error()})
+				return out
+			}
+		}
 		add := func(v ...explore.Viol) { out.Viols = append(out.Viols, v...) }
 		for _, op := range sc.Prefix {
 			if e, _ := s.apply(op); e != nil {
@@ -256,6 +267,14 @@ func fatScenarios(cfg fatCfg, oracle string, depth int, quick bool) []*fatScen {
 		W("D/prefilled-long-name-03.dat", "0", "c+1"), {Kind: "reopen"}}
 	out = append(out, &fatScen{Name: "dirs", Cfg: cfg, Prefix: pre, Letters: ld, Depth: depth, Oracle: oracle})
 	return out
+}
+
+// fatHighClusterScenario: FAT32 with more than 65536 clusters where every free cluster is above 65536.
+func fatHighClusterScenario(oracle string, depth int) *fatScen {
+	W := func(p, off, ln string) fsOp { return fsOp{Kind: "write", Path: p, Off: off, Len: ln} }
+	l := []fsOp{{Kind: "mkdir", Path: "D"}, {Kind: "create", Path: "D/A.BIN"}, W("D/A.BIN", "0", "c+1"), {Kind: "create", Path: "B-long-name.txt"}, W("B-long-name.txt", "cmid", "2c+1"),
+		{Kind: "rename", Path: "B-long-name.txt", Path2: "C.TXT"}, {Kind: "remove", Path: "D/A.BIN"}, {Kind: "trunc", Path: "B-long-name.txt"}, {Kind: "mkdir", Path: "D/E"}, {Kind: "reopen"}}
+	return &fatScen{Name: "highclusters", Cfg: fatCfg{Type: 32, Size: 40 << 20, Start: 1 << 20}, Letters: l, Depth: depth, Oracle: oracle, BadLow: 65600}
 }
 
 // fatFillScenario: fill / empty / refill on small volumes, explored to fixpoint.
